@@ -731,6 +731,8 @@ class FastaSim(Base):
         st2, back = call(fasta.get_alignment, new, ("_",), type(seqs[0])) if st == "ok" else ("exc", new)
         if st2 == "exc":
             self.fail("typed:get_alignment-raised", got=exc_name(back), msg=str(back)[:200])
+        if any(type(x) is not type(seqs[0]) for x in back.sequences):
+            self.fail("typed:alignment-sequence-type", got=[type(x).__name__ for x in back.sequences], expected=type(seqs[0]).__name__)
         if not np.array_equal(back.trace, trace) or [str(s) for s in back.sequences] != op["seqs"]:
             self.fail("typed:alignment-changed", got=[str(x) for x in back.get_gapped_sequences()], expected=rows)
         self.readbacks += 1
